@@ -110,6 +110,12 @@ impl Header {
     }
 }
 
+/// Upper bound for pre-allocations sized by counts declared in the header.
+///
+/// The header of a short or truncated file can declare arbitrarily large counts, so these counts are
+/// only used as a hint: memory beyond this many entries is allocated as the entries are parsed.
+const MAX_PREALLOC: usize = 1 << 16;
+
 /// Parser for the ASCII version of the AIGER file format.
 pub struct Parser<'a, L> {
     reader: LineReader<'a>,
@@ -187,19 +193,20 @@ where
             ..Aig::default()
         };
 
-        aig.inputs.reserve(self.header.input_count);
-        aig.latches.reserve(self.header.latch_count);
-        aig.outputs.reserve(self.header.output_count);
+        aig.inputs
+            .reserve(self.header.input_count.min(MAX_PREALLOC));
+        aig.latches
+            .reserve(self.header.latch_count.min(MAX_PREALLOC));
+        aig.outputs
+            .reserve(self.header.output_count.min(MAX_PREALLOC));
         aig.bad_state_properties
-            .reserve(self.header.bad_state_property_count);
+            .reserve(self.header.bad_state_property_count.min(MAX_PREALLOC));
         aig.invariant_constraints
-            .reserve(self.header.invariant_constraint_count);
-        aig.justice_properties = (0..self.header.justice_property_count)
-            .map(|_| vec![])
-            .collect();
+            .reserve(self.header.invariant_constraint_count.min(MAX_PREALLOC));
         aig.fairness_constraints
-            .reserve(self.header.fairness_constraint_count);
-        aig.and_gates.reserve(self.header.and_gate_count);
+            .reserve(self.header.fairness_constraint_count.min(MAX_PREALLOC));
+        aig.and_gates
+            .reserve(self.header.and_gate_count.min(MAX_PREALLOC));
 
         let justice_property_count = self.header.justice_property_count;
 
@@ -228,12 +235,15 @@ where
             aig.invariant_constraints.push(invariant_constraint);
         }
 
-        let mut justice_property_sizes = Vec::with_capacity(justice_property_count);
+        let mut justice_property_sizes =
+            Vec::with_capacity(justice_property_count.min(MAX_PREALLOC));
 
         let mut aag_reader = aag_reader.justice_properties()?;
         while let Some(justice_property_size) = aag_reader.next_justice_property_size()? {
             justice_property_sizes.push(justice_property_size);
         }
+
+        aig.justice_properties = justice_property_sizes.iter().map(|_| vec![]).collect();
 
         let mut justice_property = 0;
 
